@@ -19,14 +19,21 @@
     exactly the bytes read in warn mode, too; the own region of a byte buffer cannot be overrun; each iteration of the
     session loop and of the stream loop consumes input.)  The proof found F20 (a response without a known command
     code raised NameError; fixed in /repo).
-    NOT PROVED: that after a recovered overrun or shortfall every input byte is shown in a field, skipped as the
-    reported tail or listed in the final error (the exact-charging invariant is the arithmetic core of it); decided
-    by the oracle (tiling recomputed from events and warnings) and the model correspondence in warn mode.
+    (tiling) [C08_every_run_is_tiled]: for every root, every input, either mode, the run's trace is a sequence of
+    blocks - structure event; the w bytes of a primitive followed by its event carrying their big-endian value; a
+    warning without bytes (value, anticipated, encryption mismatch); an overrun: the skipped rest of the violated
+    region, exactly limit - counted bytes, then its Exceeded warning; a shortfall: the Subceeded warning, then exactly
+    limit - counted bytes of padding - with one incomplete last block when the input ends early; and the input is the
+    bytes of the blocks followed by the unread rest.  So every input byte is shown in a field, skipped as the reported
+    tail of a region, or left as surplus, and decoding resumes exactly at the end the violated size field declares
+    ([Proofs/WTiling.v], a closure over the decoder's building blocks).
+    NOT PROVED: nothing of the property's text is left without a theorem about the model; the tie to /repo is the
+    correspondence in warn mode and the tiling oracle on the implementation.
     Statement file: theorem statements, [exact], Print Assumptions only. *)
 From Coq Require Import ZArith List String Bool.
 From TV Require Import Layout.Types gen.Tables gen.Pinned Model.Monad Model.Constraints Model.Message Model.Pump Spec.Value Spec.Message
   Model.Show Proofs.Account Proofs.Tiling Proofs.OpLemmas Proofs.Agree Proofs.Sim5 Proofs.Sim10 Proofs.Sim11 Proofs.Safe1 Proofs.Safe3
-  Proofs.Warn2 Proofs.Warn3 Proofs.Warn4 Properties.C20.
+  Proofs.Warn2 Proofs.Warn3 Proofs.Warn4 Proofs.WTiling Properties.C20.
 Import ListNotations.
 Open Scope Z_scope.
 
@@ -93,6 +100,18 @@ Example C08_example_bad_alg :
   exists t evs, find_type Pinned.T "S" "TPMI_ALG_HASH" = Some t /\
     spec_lenient Pinned.T (RType t) [18; 52] = Some evs /\ existsb is_warning (map fst evs) = true.
 Proof. eexists _, _. split; [vm_compute; reflexivity|]. split; vm_compute; reflexivity. Qed.
+
+(** tiling with size problems: every root, every input, either mode *)
+Theorem C08_every_run_is_tiled :
+  forall T abort r bs tr s' o, dec_root T abort r (init_st bs) = (tr, s', o) ->
+    bs = bytes_of tr ++ inp s' /\
+    match o with
+    | Ok _ => wt tr
+    | More => partial tr /\ inp s' = []
+    | _ => True
+    end.
+Proof. exact run_is_tiled. Qed.
+Print Assumptions C08_every_run_is_tiled.
 
 (** never aborts: every root, every byte string *)
 Theorem C08_never_aborts_every_root :
